@@ -135,6 +135,8 @@ def rule_post_hook_frame(ctx):
         ctx.ob("POST-HOOK-FRAME", "after the hook: mutable access %s on %s is one of the generic clean-ups" % (nm, fld), ok, fn=key, site=site, detail=p)
     ctx.ob("POST-HOOK-FRAME", "after the hook the parts are mutated by exactly: qualifiers.retain, qualifiers.insert(checksum)", sorted(p.split("::")[-1] for p, _, _ in after) == ["insert", "retain"], fn=key, detail=str([(p.split("::")[-1], f) for p, f, _ in after]))
     pw = [w for w in body.partial_writes(1) if not body.is_cleanup(w[0])]
+    for l in models.self_field_locals(body):  # `let Self { package_type, parts } = self;` -- the fields live on in locals
+        pw += [w for w in body.partial_writes(l) if not body.is_cleanup(w[0])]
     ctx.ob("POST-HOOK-FRAME", "no direct assignment to self.parts / self.package_type in build()", not pw, fn=key, detail="")
     pay = st["S5"][0]["payload"] if len(st["S5"]) == 1 else None
     ok = pay is not None and pay[0] == "agg" and [models.field_path(x) for x in pay[2]] == ["package_type", "parts"]
